@@ -86,6 +86,49 @@ func genC17(seed uint64, run int, tier string) *drv.Plan {
 		p.Steps = nil
 		return p
 	}
+	if run%8 == 5 {
+		// a database written by the legacy library: the migration paths (legacy
+		// root re-saved in the new layout, legacy versions rolled back or read)
+		// under every single storage failure
+		lp := genC16(seed, run, tier)
+		p = &drv.Plan{Engine: "drv", Mode: "legacy", Config: lp.Config}
+		p.Config.Cache = r.Pick(0, 0, 2, 1000)
+		var pool [][]byte
+		extra := r.Intn(3) // commits in the new layout on top of the legacy versions
+		for _, s := range lp.Steps {
+			if strings.HasPrefix(s.Op, "l.") {
+				p.Steps = append(p.Steps, s)
+				if len(s.K) > 0 {
+					pool = append(pool, s.K)
+				}
+			}
+		}
+		id := 5000
+		for i := 0; i < extra && len(pool) > 0; i++ {
+			if r.Chance(2, 3) {
+				id++
+				p.Steps = append(p.Steps, drv.Step{ID: id, Op: drv.OpSet, K: pool[r.Intn(len(pool))], V: []byte(fmt.Sprintf("n%d", id))})
+			}
+			id++
+			p.Steps = append(p.Steps, drv.Step{ID: id, Op: drv.OpSave})
+		}
+		if len(pool) == 0 {
+			pool = [][]byte{[]byte("k")}
+		}
+		ops := []string{"p.saveempty", "p.saveempty", "p.save", "p.lvfo", "p.set", "p.remove", "p.loadversion", "p.load", "p.immget", "p.getversioned", "p.iterate", "p.export", "p.proof", "p.changes", "p.get", "p.has"}
+		id = 100000
+		n := 6
+		if tier == "thorough" {
+			n = 12
+		}
+		for i := 0; i < n; i++ {
+			id++
+			s := drv.Step{ID: id, Op: ops[r.Intn(len(ops))], K: pool[r.Intn(len(pool))], V: []byte(fmt.Sprintf("p%d", id)), N: int64(r.Intn(8))}
+			s.Fast = bp(r.Chance(1, 2))
+			p.Steps = append(p.Steps, s)
+		}
+		return p
+	}
 	if r.Chance(1, 5) {
 		// random fault sequences over a whole history: 1-4 faults addressed as
 		// (step, kind, per-mille position among that step's calls of the kind)
@@ -276,14 +319,21 @@ func runProbe(w *drv.World, s drv.Step) (pr probeResult) {
 		// what the freshly loaded handle believes afterwards is part of the
 		// answer: a failure absorbed during the load must not surface later as
 		// missing versions or absent keys
+		// (AvailableVersions and VersionExists have no error result: the calls
+		// they make themselves are not failed, what they answer after the
+		// failures absorbed so far is judged)
 		var sb strings.Builder
-		fmt.Fprintf(&sb, "%d/%x/%s/avail=%v", lv, h.Hash(), fmtp(ps), h.AvailableVersions())
+		var avail []int
+		w.Sim.Quiet(func() { avail = h.AvailableVersions() })
+		fmt.Fprintf(&sb, "%d/%x/%s/avail=%v", lv, h.Hash(), fmtp(ps), avail)
 		for _, v := range vers {
 			val, gerr := h.GetVersioned(s.K, v)
 			if gerr != nil {
 				return probeResult{err: gerr} // this part of the composite read reported the failure
 			}
-			fmt.Fprintf(&sb, "/v%d:%v:%x", v, h.VersionExists(v), val)
+			var exists bool
+			w.Sim.Quiet(func() { exists = h.VersionExists(v) })
+			fmt.Fprintf(&sb, "/v%d:%v:%x", v, exists, val)
 		}
 		return probeResult{res: sb.String(), err: err}
 	case "p.set":
@@ -292,6 +342,10 @@ func runProbe(w *drv.World, s drv.Step) (pr probeResult) {
 	case "p.remove":
 		v, ok, err := t.Remove(s.K)
 		return probeResult{res: fmt.Sprintf("%x/%v", v, ok), err: err, wrote: true}
+	case "p.saveempty":
+		// a commit without any change (reference root)
+		h, v, err := t.SaveVersion()
+		return probeResult{res: fmt.Sprintf("%x/%d", h, v), err: err, wrote: true}
 	case "p.save":
 		// pending writes first (fault-free callers arm the faults only for the commit)
 		h, v, err := t.SaveVersion()
@@ -564,12 +618,37 @@ func execC17(p *drv.Plan) *Out {
 			prefix = append(prefix, s)
 		}
 	}
-	w := drv.NewWorld(p.Config)
-	r1 := drv.RunOn(w, prefix, drv.Hooks{Prop: "C17"})
-	out := stdOut(p, r1)
-	out.Faults = map[string]int{}
-	if r1.Vio != nil || r1.Foreign != nil || w.Sim == nil || !w.Clean() {
-		return out
+	var w *drv.World
+	var out *Out
+	if p.Mode == "legacy" {
+		out = &Out{Evals: 1, Probes: map[string]int{"mode.legacy": 1}, Stats: map[string]int{}, Faults: map[string]int{}}
+		out.Sample = p.Compact()
+		lp := *p
+		lp.Steps = prefix
+		var rest []drv.Step
+		w, rest, _, _, _ = legacyWorld(&lp, out)
+		if w == nil {
+			return out
+		}
+		if err := w.Open(); err != nil {
+			return out // C16 judges whether a legacy database opens
+		}
+		for _, s := range rest {
+			if v := w.Apply(s); v != nil {
+				return out // fault-free trouble on legacy databases is C16's subject
+			}
+		}
+		if !w.Clean() {
+			return out
+		}
+	} else {
+		w = drv.NewWorld(p.Config)
+		r1 := drv.RunOn(w, prefix, drv.Hooks{Prop: "C17"})
+		out = stdOut(p, r1)
+		out.Faults = map[string]int{}
+		if r1.Vio != nil || r1.Foreign != nil || w.Sim == nil || !w.Clean() {
+			return out
+		}
 	}
 	base := w.Sim.Fork()
 	baseDigest := base.Digest()
@@ -853,7 +932,7 @@ func oneFault(p *drv.Plan, w *drv.World, base *sim.SimDB, baseDigest uint64, for
 	// the state after: apply the operation to the model
 	newM, newT := committedOnly(w2.M, w2.T)
 	switch s.Op {
-	case "p.save":
+	case "p.save", "p.saveempty":
 		newM, newT = w2.M.Clone(), w2.T.Clone()
 		newM.Commit()
 		newT.Commit()
